@@ -73,6 +73,20 @@ pub open spec fn group_push(g: Groups, k: Seq<char>, f: Field) -> Groups {
     let j = gidx(g, k, g.len() as int);
     if j >= 0 { g.update(j, (k, g[j].1.push(f))) } else { g.push((k, seq![f])) }
 }
+/// "collect_fields only creates a Vec to push to it" (the comment at `fields[0]` in execute_selection_set)
+pub open spec fn no_empty_group(g: Groups) -> bool { forall|i: int| 0 <= i < g.len() ==> (#[trigger] g[i]).1.len() > 0 }
+pub broadcast proof fn lemma_group_push_keeps_groups_non_empty(g: Groups, k: Seq<char>, f: Field)
+    requires no_empty_group(g) ensures no_empty_group(#[trigger] group_push(g, k, f))
+{
+    let j = gidx(g, k, g.len() as int);
+    lemma_gidx_range(g, k, g.len() as int);
+    assert forall|i: int| 0 <= i < group_push(g, k, f).len() implies (#[trigger] group_push(g, k, f)[i]).1.len() > 0 by {
+        if j >= 0 { if i != j { assert(group_push(g, k, f)[i] == g[i]); } } else { if i < g.len() { assert(group_push(g, k, f)[i] == g[i]); } }
+    }
+}
+pub proof fn lemma_gidx_range(g: Groups, k: Seq<char>, n: int)
+    requires 0 <= n <= g.len() ensures -1 <= gidx(g, k, n) < n decreases n
+{ if n > 0 { lemma_gidx_range(g, k, n - 1); } }
 impl<'a> IndexMap<&'a Name, Vec<&'a Field>> {
     pub uninterp spec fn view(&self) -> Groups;
     // `map.entry(k).or_default().push(f)`
@@ -147,7 +161,7 @@ U0 = "unvisited(&old(ctx).document.0, old(visited_fragments)@)"
 # general facts for one iteration, stated before any branching so that EVERY way of leaving the iteration early (`continue`, in whatever syntactic form) is covered
 # without a hint on its path: the one-step unfolding of the specification for all sufficient fuel, and "inserting a present element changes nothing"
 START_FACTS = (
-    "let ghost v0 = visited_fragments@; let ghost g0 = grouped_fields@;\n"
+    "broadcast use lemma_group_push_keeps_groups_non_empty; let ghost v0 = visited_fragments@; let ghost g0 = grouped_fields@;\n"
     "proof {\n"
     "  let doc = &ctx.document.0; let schema = &ctx.schema.0; let vars = ctx.variable_values.0@; let v = selections@;\n"
     "  let sti = CF { visited: v0, grouped: g0 }; let st00 = CF { visited: old(visited_fragments)@, grouped: old(grouped_fields)@ };\n"
@@ -210,11 +224,13 @@ UNIT = {
                        (r"grouped_fields\s*\.entry\(([^()]*\(\))\)\s*\.or_default\(\)\s*\.push\(([^()]*\(\))\)", r"grouped_fields.entry_push(\1, \2)", 1, "re")],
              clauses=[("ensures", "context_untouched", "*final(ctx) == *old(ctx)"),
                       ("ensures", "visited_only_grows", "old(visited_fragments)@.subset_of(final(visited_fragments)@)"),
+                      ("ensures", "no_group_is_empty", "no_empty_group(old(grouped_fields)@) ==> no_empty_group(final(grouped_fields)@)"),
                       ("ensures", "CollectFields",
                        "forall|fuel: nat| fuel >= %s ==> (CF { visited: final(visited_fragments)@, grouped: final(grouped_fields)@ }) == #[trigger] collect_seq(&old(ctx).document.0, &old(ctx).schema.0, object_type, old(ctx).variable_values.0@, selections@, selections@.len() as int, %s, fuel)" % (U0, ST0))],
              loops=[dict(invariant=[("bounds", "__i <= selections@.len()"),
                                     ("context_untouched", "*ctx == *old(ctx)"),
                                     ("visited_only_grows", "old(visited_fragments)@.subset_of(visited_fragments@)"),
+                                    ("no_group_is_empty", "no_empty_group(old(grouped_fields)@) ==> no_empty_group(grouped_fields@)"),
                                     ("collected_so_far", "forall|fuel: nat| fuel >= %s ==> %s == #[trigger] collect_seq(%s, selections@, __i as int, %s, fuel)" % (U0, ST, ARGS, ST0))],
                          decreases="selections@.len() - __i")],
              hints=[("loop_body_start", 0, START_FACTS),
